@@ -34,7 +34,8 @@
  *   PSTATE             ring of the current thread -> "P nr_buf curr losts done [flag size]..."
  *   BASE               address of f0 -> "BASE <addr>";   TID -> "TID <tid of the current thread>"
  *   VALX <name> <v>    (C17) unsigned 64-bit knobs: statm_on statm0 statm1 statm2 (pages, faked /proc/self/statm),
- *                      pmu_on cycle0 cycle1 cache0 cache1 branch0 branch1 (faked perf_event_open group reads)
+ *                      pmu_on cycle0 cycle1 cache0 cache1 branch0 branch1 (faked perf_event_open group reads),
+ *                      var8 var16 var32 (watched globals verif_watched_u8 / _u16 / _u32)
  *   AUTOSTATE 2        like AUTOSTATE 1 plus an "XS nr_events watch_inited watch_cpu" line after every hook
  *   QUIT
  *
@@ -72,6 +73,10 @@ static volatile int fake_on;
 volatile long verif_pagefault_min, verif_pagefault_maj;
 volatile int verif_cpu;
 volatile long verif_watched_var;
+/* C17: watched globals of 1, 2 and 4 bytes (-W var:verif_watched_u8 ...), set with VALX var8 / var16 / var32 */
+volatile unsigned char verif_watched_u8;
+volatile unsigned short verif_watched_u16;
+volatile unsigned int verif_watched_u32;
 
 int clock_gettime(clockid_t id, struct timespec *ts)
 {
@@ -415,6 +420,15 @@ static void do_op(struct drv *dv, char *line)
 				print_state();
 			return;
 		}
+		if (dv->sp > 0 && (dv->frames[dv->sp - 1][0] & ~0xffffUL) == 0xdead0000UL) {
+			/* libmcount put the original return address back into the slot (thread finished:
+			 * mtd_dtor -> mcount_rstack_restore): the function returns to its caller, no exit hook */
+			dv->sp--;
+			printf("X - 1\n");
+			if (autostate)
+				print_state();
+			return;
+		}
 		errno = 55;
 		if (have_xmm0)
 			asm volatile("movq %0, %%xmm0" ::"r"(xmm0v) : "xmm0");
@@ -585,6 +599,12 @@ static void do_op(struct drv *dv, char *line)
 			verif_statm_on = v;
 		else if (!strcmp(nm, "pmu_on"))
 			verif_pmu_on = v;
+		else if (!strcmp(nm, "var8"))
+			verif_watched_u8 = v;
+		else if (!strcmp(nm, "var16"))
+			verif_watched_u16 = v;
+		else if (!strcmp(nm, "var32"))
+			verif_watched_u32 = v;
 		else if (!strncmp(nm, "statm", 5) && nm[5] >= '0' && nm[5] <= '2')
 			verif_statm[nm[5] - '0'] = v;
 		else
